@@ -5,15 +5,18 @@ package main
 import (
 	"fmt"
 	"testing"
+
+	v1 "k8s.io/api/core/v1"
 )
 
 type boxOpts struct {
-	events    int  // user events per history
-	epochMax  int  // events injected between two forced quiescent points (1..epochMax)
-	big       bool // astronomically large pool blocks too
-	tight     bool // exhaustion bias (C07)
-	pinned    bool // pinned-pool bias (C18)
-	finalSync bool // C03: two forced re-syncs at the end (second must not write)
+	events      int  // user events per history
+	epochMax    int  // events injected between two forced quiescent points (1..epochMax)
+	big         bool // astronomically large pool blocks too
+	tight       bool // exhaustion bias (C07)
+	pinned      bool // pinned-pool bias (C18)
+	finalSync   bool // C03: two forced re-syncs at the end (second must not write)
+	writeFaults bool // status writes fail now and then throughout the history (at most 12 per history)
 }
 
 const boxMaxSteps = 6000
@@ -26,6 +29,7 @@ func boxHistory(c *vfCase, mon boxMonFlags, o boxOpts, genSeed, schedSeed uint64
 func boxHistoryOpt(c *vfCase, mon boxMonFlags, o boxOpts, genSeed, schedSeed uint64, crashAt int, faults []int, recordLabels bool) *cbox {
 	g := &boxGen{r: vfNewRand(genSeed), big: o.big, tight: o.tight, pinned: o.pinned}
 	cb := newCbox(c, mon, schedSeed)
+	g.hot = func() string { return cb.lastFailed }
 	cb.k.CrashAt = crashAt
 	cb.k.RecordLabels = recordLabels
 	cb.faultPlan = faults
@@ -36,8 +40,40 @@ func boxHistoryOpt(c *vfCase, mon boxMonFlags, o boxOpts, genSeed, schedSeed uin
 		}
 		// a fresh fault plan for the new instance
 		cb.faultPlan = boxFaultPlan(g.r)
+		// hostile timing: every other restart, a service that has an address recorded is deleted (or
+		// re-typed) while the new instance is still loading
+		if g.r.Bool() {
+			var rec []string
+			for _, k := range vfSortedKeys(cb.k.Store.Services) {
+				if len(cb.k.Store.Services[k].Status.LoadBalancer.Ingress) > 0 {
+					rec = append(rec, k)
+				}
+			}
+			if len(rec) > 0 {
+				victim := vfPick(g.r, rec)
+				kind := vfPick(g.r, []string{"svc-delete", "svc-delete", "svc-retype"})
+				ev := boxUserEvent{Kind: kind + "-while-loading", Apply: func(s *boxStore) string {
+					svc := s.Services[victim]
+					if svc == nil {
+						return "skipped (gone)"
+					}
+					if kind == "svc-delete" {
+						s.Delete(svc)
+					} else {
+						n := svc.DeepCopy()
+						n.Spec.Type = v1.ServiceTypeClusterIP
+						s.Put(n)
+					}
+					return victim
+				}}
+				cb.k.Pending = append([]boxUserEvent{ev}, cb.k.Pending...)
+			}
+		}
 	}
 	cb.k.RecordLabels = true
+	if o.writeFaults {
+		cb.faultRand, cb.faultBudget = vfNewRand(vfMix(genSeed, 0xfa17)), 12
+	}
 	cb.seedStore(g)
 	c.Logf("initial pools: %s", vfPoolDump(boxPoolList(cb.k.Store)))
 	for _, k := range vfSortedKeys(cb.k.Store.Services) {
@@ -121,6 +157,7 @@ func boxHistoryOpt(c *vfCase, mon boxMonFlags, o boxOpts, genSeed, schedSeed uin
 	c.Distinct("schedules", cb.k.ScheduleSignature())
 	c.CountN("handler-calls", cb.handlerCalls)
 	c.CountN("status-conflicts", cb.conflicts)
+	c.CountN("status-write-faults-injected", cb.faultsInjected)
 	c.CountN("config-versions-delivered", len(cb.delivered))
 	c.CountN("scheduler-steps", cb.k.Steps)
 	c.Count("histories")
@@ -223,14 +260,20 @@ func TestVerif_C02(t *testing.T) {
 }
 
 func TestVerif_C03(t *testing.T) {
-	boxRun(t, "C03", boxMonFlags{c03: true}, boxOpts{events: 24, epochMax: 2, finalSync: true}, vfSizes{Quick: 100, Thorough: 2500},
+	boxRun(t, "C03", boxMonFlags{c03: true}, boxOpts{events: 24, epochMax: 2, finalSync: true}, vfSizes{Quick: 300, Thorough: 4000},
 		"non-trivial = distinct (untouched service with admissible addresses, window with foreign events or configuration versions)")
 }
 
 func TestVerif_C07(t *testing.T) {
 	// half of the histories are drawn with the exhaustion bias (1-2 pools of 1-4 addresses, one dominant
 	// sharing key, two ports)
-	boxRunOpt(t, "C07", boxMonFlags{c07: true}, func(c *vfCase) boxOpts { return boxOpts{events: 26, epochMax: 1, tight: c.Idx%2 == 0} }, vfSizes{Quick: 160, Thorough: 3000},
+	boxRunOpt(t, "C07", boxMonFlags{c07: true}, func(c *vfCase) boxOpts {
+		o := boxOpts{events: 26, epochMax: 1, tight: c.Idx%2 == 0, writeFaults: c.Idx%3 == 1}
+		if c.Idx%6 == 1 {
+			o.epochMax = 3 // user events may arrive while a failed write is waiting for its retry
+		}
+		return o
+	}, vfSizes{Quick: 160, Thorough: 3000},
 		"non-trivial = distinct quiescent point with a pending service whose admissible set the oracle found empty")
 }
 
@@ -491,7 +534,9 @@ func TestVerif_C06(t *testing.T) {
 			faults := boxFaultPlan(c.R)
 			c.ResetTrace()
 			c.Logf("######## crash run: crash at point %d (%s), fault plan %v", idx, labels[idx-1], faults)
-			cb := boxHistoryOpt(c, boxMonFlags{c06: true, c01: true, c02: true}, o, genSeed, schedSeed, idx, faults, false)
+			oo := o
+			oo.writeFaults = c.R.Bool() // half of the crash runs: writes also fail now and then later in the history
+			cb := boxHistoryOpt(c, boxMonFlags{c06: true, c01: true, c02: true}, oo, genSeed, schedSeed, idx, faults, false)
 			c.Count("crash-runs")
 			if cb.k.Crashes > 0 && cb.crashRec != nil {
 				c.Count("crashes-executed")
